@@ -242,7 +242,7 @@ def check(ws, case):
 def spaces(tier):
     q = tier == "quick"
     ml = {"sqf": 3, "config": 3, "pp": 3, "compile": 2, "preprocess__": 2, "configparse__": 2} if q else \
-         {"sqf": 4, "config": 4, "pp": 4, "compile": 3, "preprocess__": 3, "configparse__": 3}
+         {"sqf": 5, "config": 5, "pp": 5, "compile": 3, "preprocess__": 3, "configparse__": 3}
     return [
         Space("short-strings", gen_strings(ml), check, variant="asan", describe="all strings up to length %r over the per-front-end alphabet" % ml),
         Space("corpus-truncations", gen_corpus(3 if q else 1), check, variant="asan", describe="every prefix and suffix-truncation of the corpus (step %d)" % (3 if q else 1)),
